@@ -69,14 +69,28 @@ REPO_TARGET = os.path.join(VERIF, '.cache', 'repo-target')
 
 
 def build_repo(args):
-    """compile /repo's crates (working tree) with Verus's toolchain so that a unit can link the real ide/syntax rlibs"""
+    """compile /repo's crates (working tree) with Verus's toolchain so that a unit can link the real ide/syntax rlibs;
+    returns (deps dir, {crate name: rlib path}) with the artifacts cargo actually used for THIS build (several builds of one
+    dependency with different features may coexist in the target dir)"""
     import subprocess
     env = dict(os.environ, CARGO_NET_OFFLINE='true')
-    p = subprocess.run(['cargo', '+1.98.1-x86_64-unknown-linux-gnu', 'build', '--offline', '--target-dir', REPO_TARGET] + list(args),
+    p = subprocess.run(['cargo', '+1.98.1-x86_64-unknown-linux-gnu', 'build', '--offline', '--message-format=json', '--target-dir', REPO_TARGET] + list(args),
                        cwd='/repo', capture_output=True, text=True, env=env)
     if p.returncode != 0:
         raise splice.ExtractError('the repository does not compile: ' + p.stderr[-800:])
-    return os.path.join(REPO_TARGET, 'debug', 'deps')
+    arts = {}
+    for line in p.stdout.split('\n'):
+        if not line.startswith('{'):
+            continue
+        try:
+            d = json.loads(line)
+        except Exception:
+            continue
+        if d.get('reason') == 'compiler-artifact':
+            for fn in d.get('filenames', []):
+                if fn.endswith('.rlib'):
+                    arts[d['target']['name'].replace('-', '_')] = fn
+    return (os.path.join(REPO_TARGET, 'debug', 'deps'), arts)
 
 
 class UnitRun:
